@@ -7,3 +7,4 @@ mkdir -p /verif/bin /verif/.work /verif/evidence /verif/replays
 (cd /verif/symgo && go build -o /verif/bin/symgo ./cmd/symgo)
 (cd /repo && go build ./... )
 echo setup done
+/verif/tools/selftest.sh
